@@ -83,7 +83,9 @@ func RunFamily(f *Family, o RunOpts) int {
 		extra                                                                                                                map[string]int
 		harnessErr                                                                                                           string
 	}{outcomes: map[string]bool{}, extra: map[string]int{}}
-	err := engine.RunWorkers(o.Workers, nil, 6*1024*1024, func(w int, line []byte) {
+	// shards of at most ~60 scenarios: a shard process stays far below its address-space limit
+	shards := max(o.Workers, (len(scns)+59)/60)
+	err := engine.RunShardPool(shards, o.Workers, nil, 6*1024*1024, func(w int, line []byte) {
 		var probe map[string]json.RawMessage
 		if json.Unmarshal(line, &probe) != nil {
 			return
@@ -217,7 +219,9 @@ func RunFamily(f *Family, o RunOpts) int {
 		f.Property, o.Tier, agg.scenarios, agg.states, agg.transitions, agg.cycles, agg.faultCycles, agg.binds, agg.evicts, agg.pipes,
 		len(agg.outcomes), agg.maxDepth, exhaustive, time.Since(start).Seconds())
 	// vacuity guards
-	if f.Vacuity != nil {
+	// (only meaningful for a completed exploration: a run cut short by its deadline on a loaded
+	// machine reports exhaustive=false and what it covered, it is not a broken harness)
+	if f.Vacuity != nil && exhaustive && os.Getenv("VERIF_SCENARIO") == "" {
 		if msg := f.Vacuity(agg.extra); msg != "" {
 			fmt.Fprintf(os.Stderr, "harness error: vacuous exploration: %s\n", msg)
 			return 2
